@@ -49,7 +49,7 @@ def analyze(fn: Callable, cond_timeout: float, path_timeout: float = 60.0) -> di
     return out
 
 
-_CALL = re.compile(r"when calling (\w+)\((.*)\)(?: \(which returns (.*)\))?\s*$", re.S)
+_CALL = re.compile(r"when calling (\w+)\((.*?)\)(?: \(which (?:returns|raises) .*\))?\s*$", re.S)
 
 
 def parse_counterexample(message: str, params: list[str]) -> Optional[dict]:
